@@ -557,6 +557,10 @@ func (m *DenseFloat64Matrix) Import(filename string) error {
       continue
     }
     fields := strings.Fields(l)
+    if len(fields) == 0 {
+      // line of blanks
+      continue
+    }
     if cols == 0 {
       cols = len(fields)
     }
